@@ -638,3 +638,134 @@ def lemmas_min(assertions, lip=(), mono=(), pyth=(), extra_terms=(), special=Fal
         else:
             out.append(z3.Implies(dom, z3.And(z3.Implies(u < v, fu > fv), z3.Implies(u > v, fu < fv), z3.Implies(u == v, fu == fv))))
     return out
+
+
+# ------------------------------------------------------------------------------------------------
+# Interval abstraction: a sound weakening of a query with long series of bounded terms (ephemeris sums) into linear arithmetic.
+
+UF_RANGE = {"rs_sin": (-1, 1), "rs_cos": (-1, 1), "rs_asin": (-1.5707963267949, 1.5707963267949), "rs_acos": (0, 3.1415926535898),
+            "rs_atan": (-1.5707963267949, 1.5707963267949), "rs_atan2": (-3.1415926535898, 3.1415926535898)}
+
+
+def ival_uf(e, env, depth=0):
+    """ival extended with the ranges of the libm functions (theorems about the real functions)."""
+    if z3.is_app(e) and e.num_args() > 0 and e.decl().name() in UF_RANGE:
+        lo, hi = UF_RANGE[e.decl().name()]
+        return (_F(lo), _F(hi))
+    return ival(e, env, depth)
+
+
+def propagate_defs(pc, env):
+    """Forward interval analysis over a path condition: learn simple bounds and, for every definitional equality `v == term`
+    (v a constant), the enclosure of term (UF applications by their ranges). Returns env (name -> (lo, hi)). Sound: every model of
+    pc satisfies every interval."""
+    import functools
+    def iv(e, depth=0):
+        return _ival_deep(e, env, {})
+    for c in pc:
+        if isinstance(c, bool):
+            continue
+        if z3.is_eq(c) and _is_var(c.arg(0)) and not z3.is_bool(c.arg(0)):
+            lo, hi = iv(c.arg(1))
+            _tighten(env, c.arg(0).decl().name(), lo, hi, z3.is_int(c.arg(0)))
+        else:
+            learn(c, env)
+    return env
+
+
+def _ival_deep(e, env, memo):
+    """Interval of a (possibly deep, DAG-shaped) term with memoisation; products of any number of factors; UF ranges."""
+    i = e.get_id()
+    if i in memo:
+        return memo[i]
+    n = _num(e)
+    if n is not None:
+        memo[i] = (n, n)
+        return memo[i]
+    k = e.decl().kind()
+    r = (None, None)
+    if e.num_args() == 0:
+        r = env.get(e.decl().name(), (None, None))
+    elif e.decl().name() in UF_RANGE:
+        lo, hi = UF_RANGE[e.decl().name()]
+        r = (_F(lo), _F(hi))
+        if e.num_args() == 1:
+            al, ah = _ival_deep(e.arg(0), env, memo)
+            mr = _mono_enclosure(e.decl().name(), al, ah)
+            if mr is not None:
+                r = (max(r[0], mr[0]), min(r[1], mr[1]))
+    elif k == z3.Z3_OP_ADD:
+        lo, hi = _F(0), _F(0)
+        for a in e.children():
+            l, h = _ival_deep(a, env, memo)
+            lo, hi = _add(lo, l), _add(hi, h)
+        r = (lo, hi)
+    elif k == z3.Z3_OP_SUB:
+        ch = e.children()
+        lo, hi = _ival_deep(ch[0], env, memo)
+        for a in ch[1:]:
+            l, h = _ival_deep(a, env, memo)
+            lo, hi = _add(lo, None if h is None else -h), _add(hi, None if l is None else -l)
+        r = (lo, hi)
+    elif k == z3.Z3_OP_UMINUS:
+        l, h = _ival_deep(e.arg(0), env, memo)
+        r = (None if h is None else -h, None if l is None else -l)
+    elif k == z3.Z3_OP_MUL:
+        lo, hi = _F(1), _F(1)
+        for a in e.children():
+            l, h = _ival_deep(a, env, memo)
+            if None in (lo, hi, l, h):
+                lo = hi = None
+                break
+            ps = [lo * l, lo * h, hi * l, hi * h]
+            lo, hi = min(ps), max(ps)
+        r = (lo, hi)
+    elif k == z3.Z3_OP_DIV:
+        d = _num(e.arg(1))
+        l, h = _ival_deep(e.arg(0), env, memo)
+        if d is not None and d != 0 and None not in (l, h):
+            r = (min(l / d, h / d), max(l / d, h / d))
+        elif d is None:
+            dl, dh = _ival_deep(e.arg(1), env, memo)
+            if None not in (l, h, dl, dh) and (dl > 0 or dh < 0):
+                ps = [l / dl, l / dh, h / dl, h / dh]
+                r = (min(ps), max(ps))
+    elif k == z3.Z3_OP_TO_REAL:
+        r = _ival_deep(e.arg(0), env, memo)
+    elif k == z3.Z3_OP_ITE:
+        (a, b), (c2, d) = _ival_deep(e.arg(1), env, memo), _ival_deep(e.arg(2), env, memo)
+        r = (None if a is None or c2 is None else min(a, c2), None if b is None or d is None else max(b, d))
+    else:
+        r = ival(e, env)
+    memo[i] = r
+    return r
+
+
+def _mono_enclosure(fname, lo, hi):
+    """Enclosure of a libm function over [lo, hi] from monotonicity on the principal branches (theorems about the real functions);
+    endpoint values are evaluated in double precision and padded outward by 1e-12 (absolute) + 1e-12 (relative)."""
+    if lo is None or hi is None:
+        return None
+    a, b = float(lo), float(hi)
+    pad = lambda x, up: _F(x + (1 if up else -1) * (1e-12 + 1e-12 * abs(x)))
+    H = _math.pi / 2
+    if fname == "rs_sin" and -H + 1e-9 <= a and b <= H - 1e-9:
+        return (pad(_math.sin(a), False), pad(_math.sin(b), True))
+    if fname == "rs_cos":
+        if 1e-9 <= a and b <= _math.pi - 1e-9:
+            return (pad(_math.cos(b), False), pad(_math.cos(a), True))
+        if -_math.pi + 1e-9 <= a and b <= -1e-9:
+            return (pad(_math.cos(a), False), pad(_math.cos(b), True))
+        if -H <= a <= 0 <= b <= H:
+            return (pad(min(_math.cos(a), _math.cos(b)), False), _F(1))
+    if fname == "rs_asin" and -1 <= a and b <= 1:
+        return (pad(_math.asin(max(-1.0, a)), False), pad(_math.asin(min(1.0, b)), True))
+    if fname == "rs_atan":
+        return (pad(_math.atan(a), False), pad(_math.atan(b), True))
+    if fname == "rs_tan" and -H + 1e-6 <= a and b <= H - 1e-6:
+        return (pad(_math.tan(a), False), pad(_math.tan(b), True))
+    return None
+
+
+def enclosure(e, env):
+    return _ival_deep(e, env, {})
